@@ -137,6 +137,13 @@ func (e *Engine) doCall(f *frame, st *State, cc *ssa.CallCommon, args []Val, fnv
 	if fv, ok := fnv.(FuncV); ok {
 		return e.callFunc(f, st, fv.Fn, fv.Bind, args, sig, reach, pos)
 	}
+	// range-over-func: seq(yield) is a loop whose body is the synthetic yield closure
+	if len(args) == 1 {
+		if yv, ok := args[0].(FuncV); ok && yv.Fn.Synthetic == "range-over-func yield" && e.pure == 0 {
+			nst, nreach := e.yieldLoop(f, st, yv, reach, pos)
+			return TupleV(nil), nst, nreach
+		}
+	}
 	// dynamic call of an unknown function value
 	res := e.results(st, sig, "dyn")
 	var snaps []Val
@@ -562,4 +569,118 @@ func (e *Engine) formal(st *State, t types.Type, name string, formals *[]string)
 	}
 	*formals = append(*formals, "("+name+" U)")
 	return OpaqueV{name}
+}
+
+// yieldLoop models `for x := range seq { body }` where seq is an opaque iterator: the synthetic yield closure is the loop
+// body.  The loop is cut by the invariants `loop yN` of the function under contract (N = ordinal of the range-over-func
+// loop in the function); in effects mode a missing invariant is `true`.
+// Assumption (recorded): the iterator calls yield sequentially, stops after yield returns false, and does nothing else.
+func (e *Engine) yieldLoop(f *frame, st *State, yv FuncV, reach string, pos token.Pos) (*State, string) {
+	e.note("range-over-func iterator assumed well-behaved (sequential yields, stops on false)")
+	ord := 0
+	if p := yv.Fn.Parent(); p != nil {
+		k := 0
+		for _, a := range p.AnonFuncs {
+			if a == yv.Fn {
+				ord = k
+			}
+			if a.Synthetic == "range-over-func yield" {
+				k++
+			}
+		}
+	}
+	var invs []*ssa.Function
+	if f.top && e.fc != nil {
+		for _, name := range e.fc.invFuncs(1000 + ord) {
+			if m := e.pkg.Func(name); m != nil {
+				invs = append(invs, m)
+			}
+		}
+	}
+	if len(invs) == 0 && !e.cfg.Effects {
+		panic(unsupported{fmt.Sprintf("range-over-func loop y%d of %s has no invariant", ord, f.fn.Name())})
+	}
+	evalInv := func(s *State) string {
+		var conj []string
+		for _, inv := range invs {
+			as := e.bindLowered(inv, func(name string) (Val, bool) {
+				if c, ok := f.named[name]; ok {
+					return s.cells[c], true
+				}
+				for i, fp := range f.fn.Params {
+					if fp.Name() == name {
+						return f.env[f.fn.Params[i]], true
+					}
+				}
+				return nil, false
+			})
+			conj = append(conj, e.pureCall(inv, as, nil, s)[0].(BoolV).T)
+		}
+		return and(conj...)
+	}
+	if len(invs) > 0 {
+		e.oblige("inv-entry", fmt.Sprintf("loopy%d", ord), reach, evalInv(st), pos)
+	}
+	// forget every captured cell the body stores to
+	written := map[int]bool{}
+	for _, b := range yv.Fn.Blocks {
+		for _, ins := range b.Instrs {
+			if s, ok := ins.(*ssa.Store); ok {
+				if fv, ok := rootOf(s.Addr).(*ssa.FreeVar); ok {
+					for i, x := range yv.Fn.FreeVars {
+						if x == fv {
+							written[i] = true
+						}
+					}
+				}
+			}
+		}
+	}
+	var jumpCell *Cell
+	for i, fv := range yv.Fn.FreeVars {
+		if !written[i] || i >= len(yv.Bind) {
+			continue
+		}
+		if strings.HasPrefix(fv.Name(), "jump$") {
+			if ov, ok := yv.Bind[i].(OptV); ok {
+				jumpCell = ov.Cell
+			}
+			if av, ok := yv.Bind[i].(AddrV); ok {
+				jumpCell = av.Cell
+			}
+			continue
+		}
+		e.havocAddr(st, yv.Bind[i], fv.Name())
+	}
+	if jumpCell != nil {
+		st.cells[jumpCell] = IntV{e.lit(0)}
+	}
+	if len(invs) > 0 {
+		e.fact(imp(reach, evalInv(st)))
+	}
+	head := st.clone()
+	// one arbitrary iteration
+	var yargs []Val
+	for _, p := range yv.Fn.Params {
+		yargs = append(yargs, e.symbolic(st, p.Type(), "yield_"+p.Name()))
+	}
+	e.inLoop++
+	e.inlineDepth++
+	saveTop := f.top
+	vals, out, r := e.execFunc(yv.Fn, yargs, yv.Bind, st, reach, false)
+	f.top = saveTop
+	e.inlineDepth--
+	e.inLoop--
+	if r == "false" || len(vals) != 1 {
+		return head, reach
+	}
+	cont := vals[0].(BoolV).T
+	if len(invs) > 0 {
+		e.oblige("inv-preserved", fmt.Sprintf("loopy%d", ord), and(r, cont), evalInv(out), pos)
+	}
+	// after the loop: either the sequence was exhausted (state at the head) or the body returned false
+	ex := e.fresh("seq_exhausted", "Bool")
+	e.fact(imp(and(reach, not(ex)), and(r, not(cont))))
+	merged := e.mergeStates([]guarded{{g: ex, s: head}, {g: "true", s: out}})
+	return merged, reach
 }
